@@ -65,7 +65,7 @@ def confirm(pid, k):
 
 
 if __name__ == '__main__':
-    jobs = [(p, k) for p in sys.argv[1:] for k in (1, 2, 3)]
+    jobs = [(p, k) for p in sys.argv[1:] for k in (1, 2, 3) if not os.environ.get('SEED_ONLY') or str(k) in os.environ['SEED_ONLY']]
     with ThreadPoolExecutor(max_workers=6) as ex:
         for pid, k, res in ex.map(lambda a: confirm(*a), jobs):
             print(pid, k, res if isinstance(res, str) else {x: res[x] for x in res if x != 'demo_patched_tail'}, flush=True)
